@@ -1,0 +1,29 @@
+// Copyright 2017 The Wuffs Authors.
+//
+// SPDX-License-Identifier: Apache-2.0 OR MIT
+
+//go:build !verif
+// +build !verif
+
+package cgen
+
+import (
+	a "github.com/google/wuffs/lang/ast"
+)
+
+// These are no-ops unless built with the "verif" tag.
+
+func (g *gen) verifSetLoc(n *a.Node)              {}
+func (g *gen) verifIndexPre(b *buffer, n *a.Expr) {}
+func (g *gen) verifIndexPost(b *buffer, n *a.Expr, depth uint32) error {
+	return nil
+}
+func (g *gen) verifSlice(b *buffer, n *a.Expr, depth uint32) (bool, error) {
+	return false, nil
+}
+func (g *gen) verifBinaryOp(b *buffer, n *a.Expr, depth uint32) (bool, error) {
+	return false, nil
+}
+func (g *gen) verifAssociativeOp(b *buffer, n *a.Expr, depth uint32) (bool, error) {
+	return false, nil
+}
